@@ -214,6 +214,7 @@ def check(chk):
            g.where(), detail="posted in %s" % sorted(scopes), construct=BD + "::balls_available", text="balls_available posters")
 
     _requests_sized_by_unclaimed(chk, repo)
+    _resolve_incoming(chk, repo)
 
     # ------------------------------------------------------------- BOOL-1
     n_h = 0
@@ -285,6 +286,86 @@ def _requests_sized_by_unclaimed(chk, repo):
            "mpf/devices/ball_device:1", nontrivial=False)
 
 
+def _resolve_incoming(chk, repo):
+    oh = repo.cls(OB, OH)
+    # ------------------------------------------------------------- RESOLVE-1: the ball announced at the target is resolved on every outcome
+    # (a target that keeps an unresolved IncomingBall never returns to idle; an eject reported as done without success never gets retried)
+    lc = oh.methods["_handle_late_confirm_or_missing"]
+    chk.analysed(lc)
+    cfg = lc.cfg()
+    rets = [n for n in cfg.nodes if n.kind == "stmt" and isinstance(n.ast, ast.Return)]
+    dna = [n.id for n, c in cfg.calls_named("did_not_arrive") if src(c.func.value) == "incoming_ball_at_target"]
+    succ = [n.id for n, c in cfg.calls_named("_handle_eject_success") if [src(a) for a in c.args] == ["eject_request"]]
+    pfc = [n.id for n, c in cfg.calls_named("_handle_playfield_timeout_confirm")]
+    lost = [(n, c) for n, c in cfg.calls_named("lost_ejected_ball")]
+    fail = [(n, c) for n, c in cfg.calls_named("_failed_eject")]
+    chk.need(bool(rets) and bool(dna) and bool(succ), "RESOLVE-1", "late-confirm handler has outcomes, did_not_arrive and success calls", lc)
+    n_f = n_t = 0
+    for r in rets:
+        v = r.ast.value
+        val = v.value if isinstance(v, ast.Constant) else None
+        if val is False:
+            n_f += 1
+            w = cfg.path_avoiding(cfg.entry.id, [r.id], dna)
+            chk.ob("RESOLVE-1", "a failed eject (return False) first tells the target that the announced ball will not arrive", w is None, lc.where(r.ast),
+                   path=cfg.fmt_path(w, OB) if w else None, construct=lc.ident, text="failed outcome resolves incoming ball")
+            w = None
+            for sn in succ:
+                if r.id in cfg.reachable([sn]):
+                    w = sn
+            chk.ob("RESOLVE-1", "an eject reported as successful is never afterwards answered with failure", w is None, lc.where(r.ast), construct=lc.ident,
+                   text="failure after success")
+        elif val is True:
+            n_t += 1
+            w = cfg.path_avoiding(cfg.entry.id, [r.id], succ + pfc + [n.id for n, _ in lost])
+            chk.ob("RESOLVE-1", "the eject is reported done (return True) only after eject success or after the ball was declared lost", w is None,
+                   lc.where(r.ast), path=cfg.fmt_path(w, OB) if w else None, construct=lc.ident, text="done outcome justified")
+    chk.ob("RESOLVE-1", "late-confirm outcomes enumerated", n_f >= 2 and n_t >= 3, lc.where(), detail="%d failed, %d done" % (n_f, n_t), nontrivial=False)
+    ok = len(lost) == 1 and len(fail) == 1
+    if ok:
+        ln, lcall = lost[0]
+        fn_, fcall = fail[0]
+        tgt = kwarg(lcall, "target") or (lcall.args[0] if lcall.args else None)
+        ok = tgt is not None and src(tgt) == "eject_request.target" and cfg.path_avoiding(cfg.entry.id, [ln.id], dna) is None and \
+            cfg.path_avoiding(cfg.entry.id, [ln.id], [fn_.id]) is None and [src(a) for a in fcall.args] == ["eject_request", "eject_try", "True"]
+        h = [n for n in cfg.nodes if n.kind == "except" and n.ast.type is not None and "TimeoutError" in src(n.ast.type)]
+        ok = ok and bool(h) and all(cfg.dominates(h[0].id, x) for x in (ln.id, fn_.id))
+    chk.ob("RESOLVE-1", "only the ball-missing timeout declares the ball lost: target told, failure reported with retry, loss handled for the eject's target",
+           ok, lc.where(), construct=lc.ident, text="lost ball triple")
+    al = [n for n in cfg.nodes if n.kind == "stmt" and isinstance(n.ast, ast.Assign) and src(n.ast.targets[0]) == "eject_request.already_left"]
+    ok = len(al) == 1 and src(al[0].ast.value) == "False" and any("ball_return_future" in k and v is True for k, v in cfg.guards_at(al[0].id).items())
+    chk.ob("RESOLVE-1", "a returned ball clears already_left (the retry waits for it to leave again)", ok, lc.where(), construct=lc.ident,
+           text="ball returned clears already_left")
+    pc = oh.methods["_handle_playfield_timeout_confirm"]
+    chk.analysed(pc)
+    cfg = pc.cfg()
+    arr = [n.id for n, c in cfg.calls_named("ball_arrived") if src(c.func.value) == "incoming_ball_at_target"]
+    succ = [n.id for n, c in cfg.calls_named("_handle_eject_success")]
+    for r in [n for n in cfg.nodes if n.kind == "stmt" and isinstance(n.ast, ast.Return)]:
+        if isinstance(r.ast.value, ast.Constant) and r.ast.value.value is True:
+            ok = bool(arr) and bool(succ) and cfg.path_avoiding(cfg.entry.id, [r.id], arr) is None and cfg.path_avoiding(cfg.entry.id, [r.id], succ) is None
+            g = cfg.guards_at(r.id)
+            ok = ok and g.get("ball_return_future.done()") is False and g.get("unknown_balls_future.done()") is False
+            chk.ob("RESOLVE-1", "a playfield eject is confirmed by timeout only when no ball returned; the announced ball is marked arrived and success posted",
+                   ok, pc.where(r.ast), detail=str(g), construct=pc.ident, text="playfield timeout confirm")
+    hc = oh.methods["_handle_confirm"]
+    chk.analysed(hc)
+    cfg = hc.cfg()
+    succ = [n.id for n, c in cfg.calls_named("_handle_eject_success")]
+    late = [n.id for n, c in cfg.calls_named("_handle_late_confirm_or_missing")]
+    for r in [n for n in cfg.nodes if n.kind == "stmt" and isinstance(n.ast, ast.Return)]:
+        if isinstance(r.ast.value, ast.Constant) and r.ast.value.value is True:
+            ok = cfg.path_avoiding(cfg.entry.id, [r.id], succ) is None
+            chk.ob("RESOLVE-1", "a confirmed eject posts eject success before it is reported done", ok, hc.where(r.ast), construct=hc.ident, text="confirm success")
+        elif r.id in late:
+            h = [n for n in cfg.nodes if n.kind == "except" and n.ast.type is not None and "TimeoutError" in src(n.ast.type)]
+            ok = bool(h) and cfg.dominates(h[0].id, r.id)
+            chk.ob("RESOLVE-1", "the late-confirm handling decides the outcome exactly when the confirm timed out", ok, hc.where(r.ast), construct=hc.ident,
+                   text="late confirm on timeout")
+    chk.ob("RESOLVE-1", "a confirm timeout is handed to the late-confirm handling", bool(late), hc.where(), construct=hc.ident, text="late confirm reached")
+    chk.floor("RESOLVE-1", 12)
+
+
 def battery():
     from sa.battery import M
     return [
@@ -306,6 +387,14 @@ def battery():
         M("twin: handler returns None explicitly", BD, "            self._setup_or_queue_eject_to_target(target, player_controlled)\n\n    # ---------------------- End of state handling code", "            self._setup_or_queue_eject_to_target(target, player_controlled)\n        return None\n\n    # ---------------------- End of state handling code", None),
         M("multiball sizes the lock release by the physical count", "mpf/devices/multiball.py", "min(device.available_balls, self.balls_added_live - balls_added)", "min(device.balls, self.balls_added_live - balls_added)", "FLOW-5c"),
         M("path search result dropped", "mpf/devices/ball_device/outgoing_balls_handler.py", "            return self._current_target.find_available_ball_in_path(start)", "            self._current_target.find_available_ball_in_path(start)", "DISCARD-1"),
+        M("unknown balls: target keeps waiting for the ball", OB, "            self.info_log(\"Got unknown balls. Assuming a ball returned.\")\n            incoming_ball_at_target.did_not_arrive()\n", "            self.info_log(\"Got unknown balls. Assuming a ball returned.\")\n", "RESOLVE-1"),
+        M("missing ball never declared lost", OB, "            await self.ball_device.lost_ejected_ball(target=eject_request.target)\n", "", "RESOLVE-1"),
+        M("lost ball reported without retry", OB, "            await self._failed_eject(eject_request, eject_try, True)\n            await self.ball_device.lost_ejected_ball", "            await self._failed_eject(eject_request, eject_try, False)\n            await self.ball_device.lost_ejected_ball", "RESOLVE-1"),
+        M("returned ball still counted as left", OB, "            eject_request.already_left = False\n            incoming_ball_at_target.did_not_arrive()", "            incoming_ball_at_target.did_not_arrive()", "RESOLVE-1"),
+        M("playfield confirm although a ball returned", OB, "        if not ball_return_future.done() and not unknown_balls_future.done():", "        if not ball_return_future.done() or not unknown_balls_future.done():", "RESOLVE-1"),
+        M("playfield confirm leaves the announced ball open", OB, "            incoming_ball_at_target.ball_arrived()\n            await self._handle_eject_success(eject_request)\n            return True", "            await self._handle_eject_success(eject_request)\n            return True", "RESOLVE-1"),
+        M("confirmed eject without success event", OB, "        self.info_log(\"Got eject confirm\")\n        await self._handle_eject_success(eject_request)\n", "        self.info_log(\"Got eject confirm\")\n", "RESOLVE-1"),
+        M("twin: late confirm log text", OB, "Got eject confirm (after recounting)", "Got eject confirm after recounting", None),
     ]
 
 
